@@ -11,9 +11,9 @@ import (
 type cacheAnchors struct {
 	gnmiUpdate, GnmiUpdate, gnmiRemove, toDelete, join *ssa.Function
 	fThr, fTs, fEvent, fSync, fClient, fMeta, fTree    *types.Var
-	fAtomic, fTimestamp                               *types.Var
-	metaRoot                                          string
-	ok                                                bool
+	fAtomic, fTimestamp                                *types.Var
+	metaRoot                                           string
+	ok                                                 bool
 }
 
 func resolveCache(c *Ctx, rule string) *cacheAnchors {
